@@ -166,6 +166,9 @@ ELEMS_OF_ARG0 = {
     '<std::vec::Vec<T, A> as std::clone::Clone>::clone', 'std::clone::Clone::clone',
     'core::slice::<impl [T]>::iter', 'core::slice::<impl [T]>::iter_mut',
     'core::slice::<impl [T]>::chunks', 'core::slice::<impl [T]>::chunks_mut',
+    'core::slice::<impl [T]>::chunks_exact', 'core::slice::<impl [T]>::chunks_exact_mut',
+    'core::slice::<impl [T]>::windows', 'core::slice::<impl [T]>::split_at', 'core::slice::<impl [T]>::split_at_mut',
+    'std::slice::ChunksExactMut::<\'a, T>::into_remainder', 'std::slice::ChunksExact::<\'a, T>::remainder',
     'std::iter::Iterator::rev', 'std::iter::Iterator::take', 'std::iter::Iterator::skip',
     'std::iter::Iterator::collect', '<std::vec::Vec<T> as std::iter::FromIterator<T>>::from_iter',
     'std::iter::FromIterator::from_iter', 'std::iter::Iterator::flatten',
@@ -192,6 +195,7 @@ class ElemEngine:
         self._stack = []
         self._supp = ()
         self._active = {}
+        self._override = {}
         import sys
         if sys.getrecursionlimit() < 20000:
             sys.setrecursionlimit(20000)
@@ -381,7 +385,7 @@ class ElemEngine:
             if s == 'enumerate':
                 return ('tuple', (frozenset([INT]), self.item_value(env, a[0])))
             if s in ('rev', 'take', 'skip', 'iter', 'iter_mut', 'chunks', 'chunks_mut', 'flatten', 'copied', 'cloned',
-                     'into_iter', 'by_ref'):
+                     'into_iter', 'by_ref', 'chunks_exact', 'chunks_exact_mut', 'into_remainder', 'remainder', 'windows', 'step_by'):
                 return self.item_value(env, a[0])
             if s == 'map':
                 return self.apply_closure(env, a[1], [self.item_value(env, a[0])])
@@ -407,7 +411,8 @@ class ElemEngine:
                 if path and path[0] == 1:
                     return self.iter_object(a[0], path[1:])
                 return None
-            if s in ('rev', 'take', 'skip', 'iter', 'iter_mut', 'chunks', 'chunks_mut', 'into_iter', 'by_ref'):
+            if s in ('rev', 'take', 'skip', 'iter', 'iter_mut', 'chunks', 'chunks_mut', 'into_iter', 'by_ref', 'chunks_exact', 'chunks_exact_mut',
+                     'into_remainder', 'remainder'):
                 return self.iter_object(a[0], path)
             if it[1] in self.pdb.bodies and a and s in ('into_iter', 'iter', 'iter_mut'):
                 return self.iter_object(a[0], path)
@@ -711,14 +716,40 @@ class ElemEngine:
         return flat(self.ev(env, obj))
 
     def stored_into(self, env, obj):
+        """join of all element values stored into `obj`; see _stored_into1.  When the first pass shows read-modify-write of a buffer
+        that starts uninitialised (push .. then out[k] /= s), a second pass lets reads of `obj` inside the stores see the values
+        the first pass found (one widening step of the obvious fixpoint) instead of the uninitialised initial content."""
+        out = self._stored_into1(env, obj)
+        if out is None or not any(_mentions_uninit(e) for e in out):
+            return out
+        cobj = self.canon(obj)
+        key = (env.key(), ('stored', cobj))
+        if key in self._override or key in self._stack:
+            return out
+        clean = frozenset(e for e in out if not _mentions_uninit(e))
+        if not clean:
+            return out
+        self._override[key] = clean
+        saved = self._supp
+        self._supp = self._supp + (('pass2', key),)
+        try:
+            out2 = self._stored_into1(env, obj)
+        finally:
+            self._supp = saved
+            del self._override[key]
+        if out2 is not None and not any(_mentions_uninit(e) for e in out2):
+            return out2 | clean if False else out2
+        return out
+
+    def _stored_into1(self, env, obj):
         """join of all element values stored into `obj` in env.f (directly, through a mutating callee,
         or through a for_each closure); None if nothing is stored.  While the stored values are being
-        evaluated, reads of `obj` itself see its initial content."""
+        evaluated, reads of `obj` itself see its initial content (or the override of the second pass)."""
         f = env.f
         obj = self.canon(obj)
         key = (env.key(), ('stored', obj))
         if key in self._stack:
-            return None
+            return self._override.get(key)
         mkey = (key, self._supp)
         if mkey in self._memo:
             return self._memo[mkey]
@@ -843,6 +874,14 @@ class ElemEngine:
 
     def effects_on(self, env, argterm):
         return self.stored_into(env, argterm)
+
+
+def _mentions_uninit(e):
+    if e == UNINIT:
+        return True
+    if isinstance(e, (tuple, frozenset)):
+        return any(_mentions_uninit(x) for x in e if isinstance(x, (tuple, frozenset)))
+    return False
 
 
 def strip_rec(e):
